@@ -236,7 +236,52 @@ pub fn run(ctx: &Ctx) -> Report {
             rep.violations += bad.len() as u64 - 3;
         }
     }
-    rep.rule = "every text of <=k lines of length 0..=m over the alphabet, joined by CR LF, fed whole and per char to an unlimited-scrollback terminal of every width 1..W and height 1..H; oracle: text() and TextUnwrapper(lines()) equal the right-trimmed input lines (trailing empty lines ignored), hence equal across widths; plus the line x?y?z for every printable Unicode scalar ? at widths 1,2,3,7; non-trivial = runs where a line is longer than the width or there are more lines than rows".into();
+    // every line count: "however much has scrolled into an unlimited scrollback"
+    {
+        let t0 = Instant::now();
+        let mut counts: Vec<usize> = (1..=ctx.tier.pick(1400usize, 5000usize)).collect();
+        if ctx.tier == Tier::Thorough {
+            for p in 13..=16u32 {
+                let b = 1usize << p;
+                counts.extend([b - 1, b, b + 1]);
+            }
+            counts.extend([9999, 10000, 10001, 11000, 11001, 11002, 20000, 22001, 65535 + 1100]);
+        }
+        let make = |n: usize| -> Vec<String> { (0..n).map(|i| format!("L{} {}", i, if i % 3 == 0 { "abcdefgh" } else { "" })).collect() };
+        let bad: Vec<(usize, usize, usize, String)> = counts
+            .par_iter()
+            .filter_map(|&n| {
+                let lines = make(n);
+                for (w, h) in [(7usize, 3usize), (3, 2), (20, 5)] {
+                    let err = match guarded(|| check_one(&lines, w, h, n % 2 == 1 && n < 200)) {
+                        Ok(Ok(_)) => None,
+                        Ok(Err(e)) => Some(e),
+                        Err(m) => Some(format!("panic: {}", m)),
+                    };
+                    if let Some(e) = err {
+                        let short: String = e.chars().take(200).collect();
+                        return Some((n, w, h, short));
+                    }
+                }
+                None
+            })
+            .collect();
+        let runs = counts.len() as u64 * 3;
+        rep.transitions += runs;
+        rep.evaluations += runs;
+        rep.traces_validated += runs;
+        rep.distinct_nontrivial += runs;
+        rep.parts.push(json!({"part":"every-line-count","max_lines":counts.iter().max(),"counts":counts.len(),"sizes":"7x3, 3x2, 20x5","runs":runs,"violating":bad.len(),"wall_s":t0.elapsed().as_secs_f64()}));
+        println!("part every-line-count: {} runs, {} violating ({:.1}s)", runs, bad.len(), t0.elapsed().as_secs_f64());
+        for (n, w, h, e) in bad.iter().take(3) {
+            emit_violation(ctx, &mut rep, "C09", json!({"part":"every-line-count","lines":make(*n),"cols":w,"rows":h,"per_char": n % 2 == 1 && *n < 200,
+                "line_count": n, "oracle":"text-reproduced","observed":e}));
+        }
+        if bad.len() > 3 {
+            rep.violations += bad.len() as u64 - 3;
+        }
+    }
+    rep.rule = "every text of <=k lines of length 0..=m over the alphabet, joined by CR LF, fed whole and per char to an unlimited-scrollback terminal of every width 1..W and height 1..H; oracle: text() and TextUnwrapper(lines()) equal the right-trimmed input lines (trailing empty lines ignored), hence equal across widths; plus the line x?y?z for every printable Unicode scalar ? at widths 1,2,3,7; plus EVERY line count 1..=1400 (thorough 5000, and around 2^13..2^16, 10000, 11000, 22000, 66635) of numbered lines at 7x3, 3x2 and 20x5; non-trivial = runs where a line is longer than the width or there are more lines than rows".into();
     rep.assumptions = vec!["characters limited to the listed alphabets; every char occupies one cell in avt".into()];
     rep
 }
